@@ -221,9 +221,11 @@ def run(tier, replay=None):
                     continue
                 fns = [f2 for f2, p2 in re.findall(r"#\d+ 0x[0-9a-f]+ in (\S+) (\S+)", blk) if "/libyara/" in p2 and f2 not in ("yr_malloc", "yr_calloc", "yr_realloc")]
                 ctx = "fault_scan" if re.search(r" in fault_scan(_v)? ", blk) else "other"
-                allocs.append((fns[0] if fns else "-", ctx))
+                allocs.append((fns[0] if fns else "-", ctx, "yr_execute_code" in fns))
             kl = [f for f in known if f["signature"].get("kind") == "memory-leak"]
-            unk = [a for a in allocs if not any(a[0] in f["signature"].get("functions", []) and a[1] == f["signature"].get("context") for f in kl)]
+            # listed: allocated by (or anywhere below) yr_execute_code in a scan that ended with a memory fault — siglongjmp skips every epilogue on the way
+            unk = [a for a in allocs if not any((a[0] in f["signature"].get("functions", []) or (f["signature"].get("below") == "yr_execute_code" and a[2]))
+                                                and a[1] == f["signature"].get("context") for f in kl)]
             hist["asan-leak-blocks"] = len(allocs)
             if allocs and not unk:
                 leak_known = True
